@@ -12,7 +12,7 @@ from . import c01
 PROP = "C03"
 LEVEL = "exploration"
 DESIGN_REF = "DESIGN.md 7 (C03)"
-BUDGETS = {"quick": 45.0, "thorough": 900.0}
+BUDGETS = {"quick": 35.0, "thorough": 900.0}
 CHUNK = 4
 MINIMISE_BUDGET = 120
 ORACLES = ("C03.",)
